@@ -297,8 +297,12 @@ def _():
             if not _room_in_body(f):
                 continue
             body = _func_body(p, f)
+            lines = _lines(p)
             for prev, s in zip(body, body[1:]):
                 if prev["kind"] not in ("decl", "empty") and s["kind"] != "empty":
+                    # not before the lone `;` of an empty-bodied while: see INCONSISTENT
+                    if lines[s["line"] - 1].strip() == ";":
+                        continue
                     out.append((s["line"], s["kind"]))
         return out
 
@@ -1466,6 +1470,9 @@ INCONSISTENT = [
      ("NO_SPC_BFR_PAR", 15), []),
     ("V56_space_before_rparen", _example(_F % "\treturn ((int )a + b);\n"),
      ("NO_SPC_BFR_PAR", 15), []),
+    # an empty line between `while (e)` and the lone `;` that is its body belongs to the control statement
+    ("V10_empty_line_in_body", _example(_F % "\twhile (a)\n\n\t\t;\n\treturn (a + b);\n"),
+     ("EMPTY_LINE_FUNCTION", 16), []),
     # the tag of a typedef'd struct / union / enum is never checked
     ("V78_struct_tag_without_prefix", _example(_H % ("struct", "int\ta;"), "x.h"),
      ("STRUCT_TYPE_NAMING", 16), []),
